@@ -82,7 +82,10 @@ CHECKS = {
                 'shape; callees contribute only their declared schema; modus ponens, instantiation, prop1-3 and declared axioms have '
                 'built-in rules; notation is expanded from pattern.py. By induction over the call graph each checked lemma returns '
                 'exactly its schema for all arguments and its internal assertions and rule applications cannot fail, using only the '
-                'allowed primitives. The pinned suite replays eight sample proofs; a lemma wrong off that path is invisible to it. '
+                'allowed primitives. The substitution helper every lemma is typed through (_build_subst) is checked against the reading '
+                'the typing gives it: position i maps to the i-th pattern and only an argument structurally equal to MetaVar(i) is '
+                'dropped; the resolution front-end folds trivial-clause proofs in the nesting of the conjunction it advertises. '
+                'The pinned suite replays eight sample proofs; a lemma wrong off that path is invisible to it. '
                 'Eighteen methods (run-time matching, loops, prose docstrings) are declined by name in the evidence.',
         'note': 'Trusted: the docstring grammar and binding convention, the built-in primitive rules, spec/axioms.py, python ast; that the '
                 'replayed conclusion equals the static one is the ProofThunk assertion (C08).',
@@ -190,12 +193,16 @@ CHECKS = {
     },
     'C17': {
         'level': 'other',
-        'technique': 'visitor/grammar table agreement (ast of Encoder and transformer vs the Lark grammar string), dispatch-ends-raising rule',
+        'technique': 'visitor/grammar table agreement (ast of Encoder and transformer vs the Lark grammar string), closure / scan-before-emit / single-ordered-pass rules over the slicer (syntax-level path enumeration), dispatch-ends-raising rule',
         'text': 'Printer/parser agreement as necessary conditions of the round trip: every node class the transformer can build has an '
                 'explicit Encoder handler (the generic Visitor would print nothing), every structured statement kind gets a distinct '
                 'letter, the `$` keywords the Encoder writes are the terminals of the grammar alternative for the same kind, the slicer '
                 'keeps and emits hypotheses in insertion order, and its statement-kind dispatch ends in a raising branch (a constant-true '
-                'assert there was a genuine defect, now fixed). Round-trip identity, self-containedness of slices and re-verification '
+                'assert there was a genuine defect, now fixed). Slice closure: every statement supporting_database_for_provable emits '
+                '(the lemma, its own hypotheses, the named statements) was scanned into the sets the `$c`/`$v` declarations and floating '
+                'hypotheses are generated from; the scan and the label set are complete before anything is emitted; declarations come '
+                'first and the lemma block last; floating hypotheses leave in one in-order pass over the insertion-ordered container; '
+                'set iterations in the slicer are triaged by name. Round-trip identity and re-verification of the compressed proof '
                 'are not decided.',
         'note': 'Trusted: python ast; the grammar is read from the `syntax` constant of metamath/parser.py.',
         'design_ref': 'DESIGN.md section 3, C17',
@@ -205,7 +212,9 @@ CHECKS = {
         'technique': 'abstract evaluation of notation definitions (dependency sets) vs statically evaluated format strings; override-set and label agreement',
         'text': 'For all 31 Notation constructions the argument indices the definition depends on are contained in the placeholders of the '
                 'format string as the interpreter sees it (f-strings that consume their own {i} are caught; three such notations are '
-                'recorded as known findings pinned by K-generated snapshots); loop-built notations couple MetaVar(i) with placeholder i. '
+                'recorded as known findings pinned by K-generated snapshots); loop-built notations couple MetaVar(i) with placeholder i; '
+                'Notation.print_instantiation hands every argument, rendered with the caller\'s options, in position and unfiltered to '
+                'that format string. '
                 'The pretty printer and the serializer override the same 24 methods, each pretty override prints one terminated step '
                 'whose word is the opcode written. Injectivity of rendering in general is not decided.',
         'note': 'Trusted: python ast, str.format placeholder syntax. Known findings: equiv, sorted-exists, kore-exists.',
